@@ -165,7 +165,12 @@ def export():
 def seeded(args):
     """run the registered checks against the kept seeded changes of /verif/seeded/<id>/"""
     base = os.path.join(runner.HOME, "seeded")
-    rows = []
+
+    class Rows(list):
+        def append(self, r):                       # rows appear as they are produced (a full run takes hours)
+            print("%-40s %s" % r)
+            sys.stdout.flush()
+    rows = Rows()
     for name in sorted(os.listdir(base)) if os.path.isdir(base) else []:
         if args and not any(a in name for a in args):
             continue
@@ -213,8 +218,6 @@ def seeded(args):
                             harvest(pid, "seeded-" + name, rp)
         finally:
             shutil.rmtree(d, ignore_errors=True)
-    for r in rows:
-        print("%-40s %s" % r)
     return 0
 
 
